@@ -484,7 +484,7 @@ pub fn run(ctx: &Ctx, rep: &mut Report) {
         || {
             (
                 prop_oneof![Just(1u8), Just(2u8), Just(4u8), Just(8u8)],
-                0usize..3,
+                prop_oneof![3 => 0usize..3, 2 => 0usize..=10],
                 proptest::collection::vec(any::<u8>(), 0..=10),
             )
                 .prop_map(|(width, zeros, mut bytes)| {
@@ -521,6 +521,13 @@ pub fn run(ctx: &Ctx, rep: &mut Report) {
                     let mut b = s.into_bytes();
                     let k = i.index(b.len());
                     b.truncate(k);
+                    b
+                }),
+                // plain ASCII of 8..200 bytes with one byte >= 0x80 somewhere, often near the end
+                1 => (8usize..200, any::<prop::sample::Index>(), 0x80u8..=0xFF, any::<bool>()).prop_map(|(len, i, x, tail)| {
+                    let mut b: Vec<u8> = (0..len).map(|k| b'a' + (k % 26) as u8).collect();
+                    let k = if tail { len - 1 - i.index(len.min(8)) } else { i.index(len) };
+                    b[k] = x;
                     b
                 }),
                 // long texts with one byte replaced / cut in the middle of a character
